@@ -3,6 +3,10 @@
 #include "units.inc"
 #include "units_iface.hpp"
 #include "nt.hpp"
+#include <PhQ/Dyad.hpp>
+#include <PhQ/PlanarVector.hpp>
+#include <PhQ/SymmetricDyad.hpp>
+#include <PhQ/Vector.hpp>
 #include <array>
 #include <utility>
 #include <vector>
@@ -42,12 +46,88 @@ template <class U, std::size_t... I> static VfLD stat_all(VfLD x, int kind, int 
 }
 template <class U> static VfLD stat(VfLD x, int kind, int u) { return stat_all<U>(x, kind, u, std::make_index_sequence<Decl<U>::n>{}); }
 
+// ---- container overloads -------------------------------------------------------------------------------------
+template <class U, std::size_t N> static int arr_dyn(int form, const VfLD* in, U from, U to, VfLD* out, VfLD* after) {
+  std::array<VfT, N> a; for (std::size_t i = 0; i < N; i++) a[i] = (VfT)in[i];
+  if (form == 0) { const std::array<VfT, N> r = Convert<U, N, VfT>(a, from, to); for (std::size_t i = 0; i < N; i++) { out[i] = r[i]; after[i] = a[i]; } }
+  else { ConvertInPlace<U, N, VfT>(a, from, to); for (std::size_t i = 0; i < N; i++) { out[i] = a[i]; after[i] = a[i]; } }
+  return (int)N;
+}
+template <class V> static void vflat(const V& v, VfLD* o);
+template <> void vflat(const PlanarVector<VfT>& v, VfLD* o) { o[0] = v.x(); o[1] = v.y(); }
+template <> void vflat(const Vector<VfT>& v, VfLD* o) { o[0] = v.x(); o[1] = v.y(); o[2] = v.z(); }
+template <> void vflat(const SymmetricDyad<VfT>& v, VfLD* o) { o[0] = v.xx(); o[1] = v.xy(); o[2] = v.xz(); o[3] = v.yy(); o[4] = v.yz(); o[5] = v.zz(); }
+template <> void vflat(const Dyad<VfT>& v, VfLD* o) { o[0] = v.xx(); o[1] = v.xy(); o[2] = v.xz(); o[3] = v.yx(); o[4] = v.yy(); o[5] = v.yz(); o[6] = v.zx(); o[7] = v.zy(); o[8] = v.zz(); }
+static PlanarVector<VfT> mk_pv(const VfLD* c) { return PlanarVector<VfT>((VfT)c[0], (VfT)c[1]); }
+static Vector<VfT> mk_v(const VfLD* c) { return Vector<VfT>((VfT)c[0], (VfT)c[1], (VfT)c[2]); }
+static SymmetricDyad<VfT> mk_s(const VfLD* c) { return SymmetricDyad<VfT>((VfT)c[0], (VfT)c[1], (VfT)c[2], (VfT)c[3], (VfT)c[4], (VfT)c[5]); }
+static Dyad<VfT> mk_d(const VfLD* c) { return Dyad<VfT>((VfT)c[0], (VfT)c[1], (VfT)c[2], (VfT)c[3], (VfT)c[4], (VfT)c[5], (VfT)c[6], (VfT)c[7], (VfT)c[8]); }
+template <class U, class V> static void shaped_dyn(int form, V v, U from, U to, VfLD* out, VfLD* after) {
+  if (form == 0) { const V r = Convert<U, VfT>(v, from, to); vflat(r, out); vflat(v, after); }
+  else { ConvertInPlace<U, VfT>(v, from, to); vflat(v, out); vflat(v, after); }
+}
+// compile-time conversions on containers: unit I <-> standard
+template <class U, int I> static int stat_container(int shape, bool to_std, const VfLD* in, int n, VfLD* out, VfLD* after) {
+  constexpr U u = Decl<U>::e[I];
+  auto run = [&](auto v) {
+    using V = decltype(v);
+    if (to_std) { const V r = ConvertStatically<U, u, Standard<U>, VfT>(v); vflat(r, out); } else { const V r = ConvertStatically<U, Standard<U>, u, VfT>(v); vflat(r, out); }
+    vflat(v, after);
+  };
+  switch (shape) {
+    case 1: {
+      if (n != 3) return -1;
+      const std::array<VfT, 3> a{(VfT)in[0], (VfT)in[1], (VfT)in[2]};
+      const std::array<VfT, 3> r = to_std ? ConvertStatically<U, u, Standard<U>, 3, VfT>(a) : ConvertStatically<U, Standard<U>, u, 3, VfT>(a);
+      for (int i = 0; i < 3; i++) { out[i] = r[(std::size_t)i]; after[i] = a[(std::size_t)i]; }
+      return 3;
+    }
+    case 3: run(mk_pv(in)); return 2;
+    case 4: run(mk_v(in)); return 3;
+    case 5: run(mk_s(in)); return 6;
+    case 6: run(mk_d(in)); return 9;
+    default: return -1;
+  }
+}
+template <class U, std::size_t... I> static int stat_container_all(int unit, int shape, bool to_std, const VfLD* in, int n, VfLD* out, VfLD* after, std::index_sequence<I...>) {
+  using F = int (*)(int, bool, const VfLD*, int, VfLD*, VfLD*);
+  static constexpr F tab[] = {&stat_container<U, (int)I>...};
+  return tab[unit](shape, to_std, in, n, out, after);
+}
+template <class U> static int conv_container(int shape, int form, const VfLD* in, int n, int from, int to, VfLD* out, VfLD* after) {
+  const U f = Decl<U>::e[from], t = Decl<U>::e[to];
+  if (form == 2) {
+    int std_idx = -1; for (int i = 0; i < Decl<U>::n; i++) if (Decl<U>::e[i] == Standard<U>) std_idx = i;
+    if (to == std_idx) return stat_container_all<U>(from, shape, true, in, n, out, after, std::make_index_sequence<Decl<U>::n>{});
+    if (from == std_idx) return stat_container_all<U>(to, shape, false, in, n, out, after, std::make_index_sequence<Decl<U>::n>{});
+    return -1;
+  }
+  switch (shape) {
+    case 0: { if (form != 1) return -1; VfT x = (VfT)in[0]; ConvertInPlace<U, VfT>(x, f, t); out[0] = x; after[0] = x; return 1; }
+    case 1:
+      switch (n) { case 1: return arr_dyn<U, 1>(form, in, f, t, out, after); case 2: return arr_dyn<U, 2>(form, in, f, t, out, after); case 3: return arr_dyn<U, 3>(form, in, f, t, out, after); case 4: return arr_dyn<U, 4>(form, in, f, t, out, after);
+        case 5: return arr_dyn<U, 5>(form, in, f, t, out, after); case 6: return arr_dyn<U, 6>(form, in, f, t, out, after); case 7: return arr_dyn<U, 7>(form, in, f, t, out, after); case 8: return arr_dyn<U, 8>(form, in, f, t, out, after);
+        case 9: return arr_dyn<U, 9>(form, in, f, t, out, after); default: return -1; }
+    case 2: {
+      std::vector<VfT> v((std::size_t)n); for (int i = 0; i < n; i++) v[(std::size_t)i] = (VfT)in[i];
+      if (form == 0) { const std::vector<VfT> r = Convert<U, VfT>(v, f, t); if ((int)r.size() != n) return -2; for (int i = 0; i < n; i++) { out[i] = r[(std::size_t)i]; after[i] = v[(std::size_t)i]; } }
+      else { ConvertInPlace<U, VfT>(v, f, t); if ((int)v.size() != n) return -2; for (int i = 0; i < n; i++) { out[i] = v[(std::size_t)i]; after[i] = v[(std::size_t)i]; } }
+      return n;
+    }
+    case 3: shaped_dyn<U>(form, mk_pv(in), f, t, out, after); return 2;
+    case 4: shaped_dyn<U>(form, mk_v(in), f, t, out, after); return 3;
+    case 5: shaped_dyn<U>(form, mk_s(in), f, t, out, after); return 6;
+    case 6: shaped_dyn<U>(form, mk_d(in), f, t, out, after); return 9;
+    default: return -1;
+  }
+}
+
 template <class U> static VfUnitType row() {
   static std::vector<int> values;
   values.clear();
   int std_idx = -1;
   for (int i = 0; i < Decl<U>::n; i++) { values.push_back((int)Decl<U>::e[i]); if (Decl<U>::e[i] == Standard<U>) std_idx = i; }
-  return VfUnitType{Decl<U>::tname, Decl<U>::n, Decl<U>::names, values.data(), std_idx, &conv<U>, &stat<U>};
+  return VfUnitType{Decl<U>::tname, Decl<U>::n, Decl<U>::names, values.data(), std_idx, &conv<U>, &stat<U>, &conv_container<U>};
 }
 static const std::vector<VfUnitType>& table() {
   static const std::vector<VfUnitType> t = [] {
